@@ -178,7 +178,10 @@ export function genEnv(rng) {
 
 // ---- values ----
 export function randomValue(rng, d) {
-  switch (rng.below(d > 0 ? 18 : 12)) {
+  switch (rng.below(d > 0 ? 19 : 12)) {
+    // an own `constructor` / `toString` / `valueOf` key holding a non-function: anything that reads `v.constructor.name`
+    // or coerces the object to a string throws on these
+    case 18: { const o = {}; Object.defineProperty(o, rng.pick(["constructor", "constructor", "toString", "valueOf"]), { value: rng.pick([null, undefined, 1]), enumerable: true, configurable: true, writable: true }); if (rng.chance(1, 2)) Object.defineProperty(o, pickKey(rng), { value: randomValue(rng, 0), enumerable: true, configurable: true, writable: true }); return o; }
     case 0: return null;
     case 1: return undefined;
     case 2: return rng.chance(1, 2);
